@@ -6,6 +6,7 @@ from .. import scope, vpool, explorer
 from ..common import build, call, exc_text
 from ..runner import Rec, h64
 
+PATHFORMS = False      # (the command line is given the relative name plt00000)
 PROPERTY = "C10"
 LEVEL = "model_checking"
 RULE = ("case = generated 3D plotfile (1..3 levels, every layout of one deviating level); execution = whip.cli.main() with "
@@ -76,6 +77,15 @@ def cases(tier, seed):
     d.update({"fields": ["temp", "density", "Z"], "seed": seed, "payload": ["coded", "signed", "pos"],
               "layout": [scope.scattered_layout(27, 9), scope.scattered_layout(20, 8)]})
     out.append({"desc": d, "w": 30, "many": True})
+    # a long channel: 73728 cells along z on level 0 (more than 2^16), nine boxes of 8192 cells in three files, a refined patch at
+    # the far end (cell indices beyond 65535 and 131071)
+    l0 = [[[0, 0, 8192 * i], [1, 1, 8192 * i + 8191]] for i in range(9)]
+    l1 = [[[0, 0, 147448], [3, 3, 147455]], [[0, 0, 131072], [1, 1, 131079]]]
+    d = {"ndims": 3, "domain": [2, 2, 73728], "levels": [l0, l1]}
+    d.update(geos[0])
+    d.update({"fields": ["temp", "density"], "seed": seed, "payload": ["coded", "signed"],
+              "layout": [{"files": [[8, 0, 3], [1, 4, 7], [2, 5, 6]], "nums": [2, 0, 1]}, scope.layouts(2, 'idrev')[-1]]})
+    out.append({"desc": d, "w": 40, "long": True})
     # FAB header lines longer than 100 bytes (finest of 7 levels in the far corner, 12 fields): one field, the
     # finest grid only (1024 x 128 x 128), identity schedule
     d = dict(scope.deep_corner_mesh())
@@ -164,6 +174,8 @@ def run_case(case, workdir):
                     runs_ = explorer.explore(run, bound=0 if deep else 1)
                     if case.get("many"):
                         runs_ = [({"workers": nw_},) + run({}, nw_) for nw_ in (1, 3, 16)]
+                    if case.get("long"):
+                        runs_ = [({},) + run({})]
                     for plan, ctl, (st, val) in runs_:
                         sub = {"argv": argv, "plan": explorer.plan_json(plan) if "workers" not in plan else plan}
                         rec.exe([dh, sub], nontrivial=(ref.nlevels > 1 or max(c["n"] for c in ctl.calls) > 1),
@@ -185,6 +197,47 @@ def run_case(case, workdir):
                         rec.outcome(h64([dh, argv[1:], hash(bits(val).tobytes())]))
                     if len(outs) > 1:
                         rec.fail("schedule_dependent", {"argv": argv}, "%d distinct outputs over schedules" % len(outs))
+    # history: a run that FAILS part-way (a binary file of the finest level is not there yet - a plotfile still being copied), then
+    # the same request again, and another field to the same output, once the plotfile is complete: whatever the failed run left
+    # behind must not reach the later grids
+    if ref.nlevels >= 2 and not deep and not case.get("many") and not case.get("long"):
+        from ..refmodel import ParsedPlot
+        lvdir = os.path.join(path, "%s%d" % (desc.get("levelprefix", "Level_"), ref.nlevels - 1))
+        victim = sorted(set(ParsedPlot(path).levels[ref.nlevels - 1].files))[-1]        # (a file that the level header lists)
+        outfile = os.path.join(workdir, "retry.npy")
+
+        def whip_once(field):
+            old = sys.argv
+            sys.argv = ["whip", "-v", field, "-y", "-o", outfile, "plt00000"]
+            try:
+                with vpool.controlled():
+                    r = call(whip.main)
+            except SystemExit as e:
+                r = ("exc", e)
+            finally:
+                sys.argv = old
+            return r
+        os.rename(os.path.join(lvdir, victim), os.path.join(workdir, "victim.aside"))
+        r1 = whip_once(names[0])
+        os.rename(os.path.join(workdir, "victim.aside"), os.path.join(lvdir, victim))
+        rec.exe([dh, "retry", "failing_run"], nontrivial=True)
+        if r1[0] != "exc":
+            rec.fail("failure_not_reported", {"history": "finest-level binary file missing"}, "whip ended normally")
+        cov_ = ref.covering(limit=ref.nlevels - 1)
+        for fi_ in (0, len(names) - 1):
+            r2 = whip_once(names[fi_])
+            rec.exe([dh, "retry", "after_failure", fi_], nontrivial=True, trans=2)
+            sub = {"history": "an earlier run to the same output failed part-way (a binary file was missing)", "field": names[fi_]}
+            if r2[0] == "exc":
+                rec.fail("raised", sub, exc_text(r2[1]))
+                continue
+            try:
+                got = np.load(outfile)
+            except Exception as e:
+                rec.fail("raised", sub, exc_text(e))
+                continue
+            if got.shape != cov_[..., fi_].shape or not np.array_equal(bits(got), bits(cov_[..., fi_])):
+                rec.fail("history_dependent", sub, "the grid written after the failed run differs from the covering grid")
     rec.sample({"desc": desc, "argv": ["whip", "-v", "temp", "-d", "float32", "-y", "-l", "0", "-o", "grid.npy", "plt00000"]})
     return rec.result()
 
